@@ -39,8 +39,9 @@ TEXT.update({
     "C05": ("Step refinement by bounded model checking: for each VM kernel, from an arbitrary small pre-state (every Pointer symbolic, "
             "operands selecting right kind / wrong kind / out of range) the post-state equals the documented instruction semantics and the "
             "kernel fails exactly where they are undefined. One step from every state of the shape covers histories of any length whose "
-            "states stay inside the shape. Partial: call and object-creation kernels do not fit CBMC.",
-            "5 (C05)", "Kani/CBMC per eval_* kernel against the documented instruction semantics"),
+            "states stay inside the shape. The kernels CBMC cannot hold (array built-ins, function and method calls with parent-chain dispatch, "
+            "array / object creation, field get / set) are decided on their MIR by a symbolic executor with z3, counterexamples replayed natively.",
+            "5A (C05)", "Kani/CBMC per eval_* kernel + MIR/z3 symbolic execution of the call / heap kernels against the instruction semantics"),
     "C07": ("z3 over the LALR tables lalrpop generates from the current grammar (merged symbolic execution of the LR automaton: every operator "
             "tuple up to the bound groups as the documented precedence and left associativity prescribe; else-binding and chain templates), z3 "
             "regular-expression equivalence for the lexer's skip and token languages (no length bound), and Kani for the operator fold "
@@ -59,20 +60,32 @@ TEXT.update({
             "scoping rules give (innermost visible definition, fresh slot per shadowing let, left scopes invisible, top-level lets are globals). "
             "Partial: function isolation and run-time observation are not covered.", "5 (C12)", "Kani/CBMC scope-operation sequences vs a reference resolver"),
     "C13": ("VM side by bounded model checking: operands are popped exactly once and in the pushed order (branch, array, set slot), the value of "
-            "a let / assignment is compiled before the store. Partial: argument / member order of calls and objects is not covered by the solver.",
-            "5 (C13)", "Kani/CBMC VM-side operand order and multiplicity"),
+            "a let / assignment is compiled before the store; argument order of function / method calls and member order of object creation are "
+            "decided on the kernels' MIR with z3. Partial: the compiler arms with several children are not covered.",
+            "5A (C13)", "Kani/CBMC VM-side operand order and multiplicity + MIR/z3 call and object kernels"),
     "C14": ("Bounded model checking of field access through heap references (in-place update visible through the reference, non-objects rejected) "
-            "and z3 over the MIR of the built-in dispatch tables. Partial: parent-chain dispatch does not fit CBMC.",
-            "5 (C14)", "Kani/CBMC field kernels + z3 over dispatch MIR"),
+            "and z3 over the MIR of the built-in dispatch tables, of field get / set on object cells and of method dispatch through a parent "
+            "chain (own method first, then the parent's, built-ins at the chain end, arity checked).",
+            "5A (C14)", "Kani/CBMC field kernels + MIR/z3 dispatch, parent-chain and field kernels"),
     "C15": ("Bounded model checking of the print state machine for every ASCII format string up to 5 bytes (escapes, copied characters, "
             "placeholder without argument fails, nothing written on failure, null pushed), a two-byte character copied unchanged, and z3 inclusion "
             "both ways between the lexer's string-literal language and the escapes print accepts. Partial: prints with arguments and value "
             "rendering do not fit CBMC.", "5 (C15)", "Kani/CBMC print state machine + z3 lexer/print escape agreement"),
     "C16": ("Bounded model checking of Heap::allocate accounting (returns the old length, appends one cell, adds exactly size() > 0, size depends "
             "on shape only) through a guarded read accessor, exactly one allocation per successful array creation and none on failure or in any "
-            "other kernel, under an arbitrary --heap-size. Partial: the CSV file is I/O; object creation does not fit CBMC.",
-            "5 (C16)", "Kani/CBMC allocation accounting per kernel"),
+            "other kernel, under an arbitrary --heap-size; array and object creation are decided on their MIR with z3 (one cell appended, "
+            "limit respected). Partial: the CSV file is I/O.",
+            "5A (C16)", "Kani/CBMC allocation accounting per kernel + MIR/z3 array / object creation"),
 })
+
+TEXT["C17"] = (
+    "SMT (z3) over the MIR of every Display impl `fml disassemble` prints with: write! becomes a token list (literal text, one token per {} "
+    "with the term of the value printed), and four families of queries decide that the listing determines the program — a rendering splits "
+    "into its tokens in one way only (exact ambiguity query on regular languages), the tokens of a path determine every payload field "
+    "(bit-vectors / strings over two copies of the value), renderings of different kinds or program shapes are disjoint languages, and every "
+    "element is listed on a line starting with its index. Injectivity is a statement about all pairs of programs; the six *_print tests pin "
+    "one other pretty-printer on a few programs. Counterexamples are two concrete values printed by the real code.",
+    "5A (C17)", "z3 over MIR-extracted Display token sequences: unique decomposition, payload determinacy, language disjointness")
 
 TRUSTED = ("Trusted: rustc MIR -> Kani GOTO translation, CBMC, CaDiCaL, z3; the Vec-backed models of HashMap/HashSet/IndexMap "
            "(counterexamples are replayed with the real containers); the stubs listed in the evidence file. Bounded: see "
@@ -101,7 +114,7 @@ def main():
             "thorough_cmd": "./check %s thorough" % pid,
             "evidence_file": "/verif/evidence/%s.json" % pid,
             "replay_cmd_template": "./check --replay {path}",
-            "engine": "kani-cbmc",
+            "engine": "kani-cbmc" if props.get(pid).harnesses else "z3-encoders",
             "level_claimed": {"category": "model_checking", "text": text, "design_ref": "DESIGN.md section " + ref},
             "level_note": TRUSTED,
             "technique": technique,
@@ -122,10 +135,11 @@ def main():
             "add_only": True,
         },
         "engines": [
-            {"name": "kani-cbmc", "path": "/verif/kani", "serves_properties": [c["property_id"] for c in checks],
+            {"name": "kani-cbmc", "path": "/verif/kani", "serves_properties": [c["property_id"] for c in checks if props.get(c["property_id"]).harnesses],
              "kind_free_text": "Kani 0.68 / CBMC 6.11 harness crate that #[path]-includes /repo/src unchanged; replay twin in /verif/replay"},
-            {"name": "z3-encoders", "path": "/verif/smt", "serves_properties": ["C07", "C09", "C15"],
-             "kind_free_text": "z3 encoders regenerated from /repo sources: MIR of loop-free kernels, lexer regexes, LALR tables"},
+            {"name": "z3-encoders", "path": "/verif/smt", "serves_properties": [c["property_id"] for c in checks if props.get(c["property_id"]).smt_tasks],
+             "kind_free_text": "z3 encoders regenerated from /repo sources on every run: symbolic executor over the nightly MIR dump (VM kernels, "
+                               "dispatch tables, Display impls), lexer regexes, generated LALR tables; native replay binaries in /verif/replay and /verif/lalr"},
         ],
         "checks": checks,
         "notes": "All checks are solver-based (Kani/CBMC, z3) over the real code; see DESIGN.md. Exit 2 = inconclusive, never counted as held.",
